@@ -117,15 +117,16 @@ def rand_string(r):
 def gen_cases(ctx):
     r = ctx.rng
     th = ctx.thorough
-    # corpus
+    # corpus (runs first): F14, the stamp that came back 1.86 ns off before the repair; the carry of the repaired code
+    cp = core.VERIF / "harness" / "corpus" / "C06" / "bag-stamp-2p23.json"
+    if cp.exists():
+        yield dict(json.loads(cp.read_text())["case"], corpus="F14")
+    yield {"kind": "bag", "stamps": [5.999999999999, 7.9999999996, 8.9999999995, 9.99999999949, 1499999999.9999998], "xyz": [[1.0, 2.0, 3.0]] * 5,
+           "quat": [[1.0, 0.0, 0.0, 0.0]] * 5, "frame": "map", "corpus": "carry"}
     yield {"kind": "text", "fmt": "tum", "variant": "h", "rw": "h", "stamps": [1500000000.1234567], "xyz": [[5e-324, 1.7976931348623157e308, -0.0]],
            "quat": [[0.1, 0.2, 0.30000000000000004, 1 / 3]], "corpus": "extremes"}
     yield {"kind": "bag", "stamps": [1500000000.1234567, 1500000001.0000000], "xyz": [[1.0, 2.0, 3.0]] * 2, "quat": [[1.0, 0.0, 0.0, 0.0]] * 2,
            "frame": "map", "corpus": "epoch"}
-    if any(k.get("property") == "C06" and k.get("match", {}).get("stamp_range") == "2^23..2^24" for k in ctx.known):
-        # recorded finding: replayed deterministically (real bag file) once it is listed in known_findings.json
-        yield {"kind": "bag", "stamps": [10606899.173131479], "xyz": [[1.0, 2.0, 3.0]], "quat": [[1.0, 0.0, 0.0, 0.0]], "frame": "map",
-               "corpus": "stamp-in-2^23..2^24"}
     for _ in range(800 if not th else 8000):
         n = r.choice([1, 1, 2, 3, 5, 10, 30])
         fmt = r.choice(["tum", "kitti"])
@@ -179,6 +180,10 @@ def gen_cases(ctx):
     for _ in range(120 if not th else 500):
         n = r.choice([1, 2, 5, 30])
         t = gen_traj(r, n)
+        if r.random() < 0.3:      # fractions that round up to the next second / sit in the range of F14
+            base = r.randint(0, 10 ** 6)
+            t["stamps"] = sorted(set([base + i + r.choice([0.9999999995, 0.9999999996, 0.999999999999, 0.25]) for i in range(n)]
+                                     + [r.uniform(2 ** 23, 2 ** 24)]))[:n]
         t["stamps"] = [s for s in t["stamps"] if s < 2 ** 31] or [0.5]
         m = len(t["stamps"])
         yield {"kind": "bag", "stamps": t["stamps"], "xyz": t["xyz"][:m], "quat": t["quat"][:m],
@@ -223,7 +228,9 @@ def gen_cases(ctx):
         yield {"kind": "history", "target": target, "steps": steps}
     # bag stamp model alone: many stamps, no bag file
     yield {"kind": "bagstamps", "stamps": [abs(hard_double(r)) % 2.0 ** 31 for _ in range(300 if not th else 5000)]
-           + [s for _ in range(50) for s in stamps(r, 20)] + [0.0, 0.999999999, 0.9999999999, 1.0 - 2 ** -53, 2 ** 31 - 2 ** -22, 1e-10, 4.9e-324]}
+           + [s for _ in range(50) for s in stamps(r, 20)] + [r.uniform(2 ** 23, 2 ** 24) for _ in range(300)]
+           + [float(r.randint(0, 2 ** 22)) + r.choice([0.9999999995, 0.9999999996, 0.99999999949, 0.999999999999, 1 - 2 ** -30, 0.4999999995, 0.5000000005])
+              for _ in range(200)] + [0.0, 0.999999999, 0.9999999999, 1.0 - 2 ** -53, 2 ** 31 - 2 ** -22, 1e-10, 4.9e-324]}
     # rne against CPython's correctly rounded division (validation of the executable rounding)
     yield {"kind": "rne", "qs": [rand_rational(r) for _ in range(2000 if not th else 20000)]}
 
@@ -488,7 +495,9 @@ def impl_bagstamps(c):
     for s in c["stamps"]:
         stamp = np.float64(s)
         sec = int(stamp // 1)
-        nanosec = int((stamp - sec) * 1e9)
+        nanosec = int(round((stamp - sec) * 1e9))
+        if nanosec == 10 ** 9:
+            sec, nanosec = sec + 1, 0
         out.append([sec, nanosec, tf.bits(sec + (nanosec * 1e-9))])
     return {"status": "ok", "out": out}
 
@@ -612,11 +621,6 @@ def judge_text_model(ctx, case, what, fmt, outs, want_rows, text):
     ctx.count("branch", "tokens-checked", len(vals))
 
 
-def stamp_tags(x):
-    """input class of the one recorded deviation from the literal '<= 1 ns' clause (Props/C06 bag_stamp_1ns_counterexample)"""
-    return {"stamp_range": "2^23..2^24"} if 2 ** 23 <= x < 2 ** 24 else {"stamp_range": "other"}
-
-
 def judge(ctx, c, impl, outs):
     k = c["kind"]
     ctx.count("dist", k + ":" + c.get("fmt", c.get("type", "")) + ":" + c.get("variant", "") + c.get("rw", ""))
@@ -658,7 +662,7 @@ def judge(ctx, c, impl, outs):
                 ctx.mismatch(c, f"bag stamp arithmetic for {s!r} differs from Text.bagSplit/bagJoin", [sec, ns, tf.from_bits(joined)], m)
             err = abs(frac(tf.from_bits(joined)) - frac(s))
             if err > Fraction(1, 10 ** 9):
-                ctx.fail(c, "bag-stamp-within-1ns", f"{s!r} -> {tf.from_bits(joined)!r}: {float(err)}", stamp_tags(s))
+                ctx.fail(c, "bag-stamp-within-1ns", f"{s!r} -> {tf.from_bits(joined)!r}: {float(err)}")
             ctx.count("branch", "bag:exact" if err == 0 else "bag:inexact")
         ctx.record(c, True)
     elif k == "rne":
@@ -796,7 +800,7 @@ def judge_bag(ctx, c, impl, outs):
                 break
             t, t2 = frac(tf.from_bits(rw[0])), frac(tf.from_bits(rg[0]))
             if abs(t2 - t) > Fraction(1, 10 ** 9):
-                ctx.fail(c, "bag-stamp-within-1ns", f"pose {i}: {tf.from_bits(rw[0])!r} -> {tf.from_bits(rg[0])!r}", stamp_tags(tf.from_bits(rw[0])))
+                ctx.fail(c, "bag-stamp-within-1ns", f"pose {i}: {tf.from_bits(rw[0])!r} -> {tf.from_bits(rg[0])!r}")
                 break
             mm = m.split()
             if len(mm) != 3 or core.parse_rat(mm[2]) != t2:
@@ -872,12 +876,8 @@ OPEN = ["zip / npy / pandas / rosbags serialisation are libraries: bit-exact dif
         "the sign of zero does not exist in the rational model: -0.0 is covered by the bit-pattern oracle, not by the theorem",
         "lone surrogates in info strings are outside the modelled domain",
         "the ROS2 bag writer cannot be constructed the way evo calls it with the installed rosbags (needs version=): only ROS1 is exercised",
-        "bag stamps: proved |x' - x| <= 1 ns + x*2^-53 + 2^-50 and <= 2 ns + 2^-49 for every binary64 stamp in [0, 2^31), and x' = x when "
-        "2^(e-1) > 2 ns (all stamps >= 2^25 s); the literal '<= 1 ns' of the property cannot hold for doubles whose spacing exceeds 1 ns "
-        "other than as x' = x, which is what the oracle observes",
-        "bag stamps in [2^23, 2^24) s (97..194 days; spacing 1.86 ns): about 7 % come back one ulp = 1.86 ns off, i.e. more than the literal "
-        "1 ns (kernel-checked: bag_stamp_1ns_counterexample; cause: floor instead of rounding in nanosec); failures there carry the tag "
-        "stamp_range=2^23..2^24 for known_findings.json",
+        "bag stamps: proved for the repaired code (F14) |x' - x| <= 1 ns for every binary64 stamp in [0, 2^31), header within 0.5 ns + 2^-52 s, "
+        "x' = x when the spacing exceeds 2 ns; the pre-repair truncating code is kept as Text.bagSplitTrunc with the kernel-checked counterexample",
         "archive member names: array/trajectory names that are empty or contain '/' are outside the domain (Path(...).stem cuts them): not generated"]
 
 
